@@ -327,6 +327,23 @@ def applyDecisions (st : Study) : List (Nat × Bool) → Study
   | [] => st
   | (id, stop) :: rest => applyDecisions (st.putEsOp { trialId := id, active := false, shouldStop := stop }) rest
 
+/-- the part of `CheckTrialEarlyStoppingState` after the operation record is ACTIVE: consult
+    Pythia (its answer is `es`), store its metadata and decisions, read the record back -/
+def esCompute (cfg : Cfg) (st : Study) (id : Nat) (es : EsOutcome) : Resp × Study :=
+  match es with
+  | .raises =>
+    if cfg.esFailureFinishesOp then
+      (.err .runtimeError .raw, st.putEsOp { trialId := id, active := false, shouldStop := false })
+    else (.err .runtimeError .raw, st)         -- the operation stays ACTIVE
+  | .decisions ds delta =>
+    let r := st.updateMetadata cfg delta
+    if !r.1 then (.err .notFound .raw, r.2)        -- NotFoundError from update_metadata is not caught here
+    else
+      let st3 := applyDecisions r.2 ds
+      match esOpOf st3 id with
+      | some o => (.earlyStop o.shouldStop, st3)
+      | none => (.err .notFound .raw, st3)
+
 /-- `CheckTrialEarlyStoppingState` after the immutability check -/
 def earlyStopBody (cfg : Cfg) (st : Study) (id : Nat) (es : EsOutcome) : Resp × Study :=
   match st.findTrial id with
@@ -334,25 +351,11 @@ def earlyStopBody (cfg : Cfg) (st : Study) (id : Nat) (es : EsOutcome) : Resp ×
   | some t =>
     if !t.state.mutable then (.err .failedPrecondition .handled, st)
     else
-      let go (st : Study) : Resp × Study :=
-        match es with
-        | .raises =>
-          if cfg.esFailureFinishesOp then
-            (.err .runtimeError .raw, st.putEsOp { trialId := id, active := false, shouldStop := false })
-          else (.err .runtimeError .raw, st)         -- the operation stays ACTIVE
-        | .decisions ds delta =>
-          let (ok, st) := st.updateMetadata cfg delta
-          if !ok then (.err .notFound .raw, st)        -- NotFoundError from update_metadata is not caught here
-          else
-            let st := applyDecisions st ds
-            match esOpOf st id with
-            | some o => (.earlyStop o.shouldStop, st)
-            | none => (.err .notFound .raw, st)
       match esOpOf st id with
-      | none => go (st.putEsOp { trialId := id, active := true, shouldStop := false })
+      | none => esCompute cfg (st.putEsOp { trialId := id, active := true, shouldStop := false }) id es
       | some o =>
         if o.active || !cfg.esRecycle then (.earlyStop o.shouldStop, st)
-        else go (st.putEsOp { o with active := true, shouldStop := false })
+        else esCompute cfg (st.putEsOp { o with active := true, shouldStop := false }) id es
 
 /-- selection of the final measurement in `CompleteTrial`; `none` = the ValueError branch -/
 def chooseFinal (t : Trial) (final : Option Meas) (infeasible : Bool) : Option Trial :=
